@@ -20,7 +20,7 @@ from xdsl.utils.exceptions import DiagnosticException, ParseError, VerifyExcepti
 from xdsl.utils.lexer import Input  # noqa: E402
 from xdsl.utils.mlir_lexer import MLIRLexer, MLIRTokenKind  # noqa: E402
 
-LEVEL = "bounded_symbolic"
+LEVEL = "other"
 EXPLANATION = (
     "Three families. (lex) The real MLIRLexer runs on FULLY symbolic text of 1-2 (thorough 3) cells, every cell ranging over all "
     "Unicode scalar values: every path must end with tokens up to EOF or a ParseError. (parse) Representative generic-format "
